@@ -403,6 +403,9 @@ func driverScenario(s drvScn) sched.Scenario {
 						if lfHash {
 							sig = "c02:driver-framing-fooled-by-LF##-in-data"
 						}
+						if strings.Contains(s.p.xml, "\r") {
+							sig = "c02:driver-strips-carriage-returns-from-data"
+						}
 						e.Violate(sig, "%s: Get failed: %v", cse, err)
 						return
 					}
@@ -412,6 +415,9 @@ func driverScenario(s drvScn) sched.Scenario {
 						sig := "c02:driver-result-differs"
 						if lfHash {
 							sig = "c02:driver-framing-fooled-by-LF##-in-data"
+						}
+						if strings.Contains(s.p.xml, "\r") {
+							sig = "c02:driver-strips-carriage-returns-from-data"
 						}
 						e.Violate(sig, "%s: Result %q want %q (Failed=%v)", cse, tr2(r.Result), tr2(want), r.Failed)
 						return
@@ -449,7 +455,8 @@ func scenarios(tier string) []sched.Scenario {
 		}
 	}})
 	drv := []pl{payloads[5], payloads[6], payloads[7], payloads[8], payloads[10], payloads[12], payloads[14], {"nlhashw", okReply("<a>x\n#2\ny\n##z</a>"), false}, hashLine,
-		{"hashend", okReply("<d>window ##\nnext ##\n</d>"), false}} // '##' ends a line without starting one: only a search anchored at a line start of the whole buffer tells it from the terminator
+		{"hashend", okReply("<d>window ##\nnext ##\n</d>"), false},
+		{"crlf", okReply("<d>line one\r\nline two\r\n</d>"), false}} // carriage returns are data, and counted in chunk sizes // '##' ends a line without starting one: only a search anchored at a line start of the whole buffer tells it from the terminator
 	for _, p := range drv {
 		for _, v := range []string{"1.0", "1.1"} {
 			for _, echo := range []bool{false, true} {
